@@ -89,11 +89,15 @@ def fileSeekExtAt (h : FileH) (p : Nat) : Prog (RC × FileH) := do
   let (rc, h) ← (match r.extBlock with
     | none => pure (rcOK, { h with curDataPtr := h.hdr.w (F_table + 71 - h.nDataBlock) })
     | some eb => do
+      let hadExt := h.curExt.isSome
       let (rc, last) ← fileReadExtBlockN h eb
+      if rc ≠ rcOK then
+        -- a buffer allocated for this call is released again; an older one keeps what was read into it
+        let h := if hadExt then (match last with | some b => { h with curExt := some b } | none => h) else h
+        return (rcError, { h with curDataPtr := 0 })
       let h := match last with
         | some b => { h with curExt := some b }
-        | none => if h.curExt.isNone then { h with curExt := some zeroBlk } else h   -- freshly allocated buffer
-      if rc ≠ rcOK then return (rcError, { h with curDataPtr := 0 })
+        | none => if h.curExt.isNone then { h with curExt := some zeroBlk } else h
       match h.curExt with
       | none => fault (.oob "adfFileSeekExt.currentExt")
       | some ce => return (rcOK, { h with curDataPtr := ce.w (F_table + 71 - h.posInExtBlk), posInExtBlk := h.posInExtBlk + 1 })
@@ -141,6 +145,13 @@ def fileFlush (h : FileH) : Prog (RC × FileH) := do
       return (rc, { h with curData := data })
     else return (rcOK, h) : Prog (RC × FileH))
   if rc ≠ rcOK then return (rc, h)
+  -- the fields the directory layer owns are taken over from the block as it is on the disk now
+  let (rc, d) ← readEntryBlock h.vol (h.hdr.w F_headerKey)
+  if rc ≠ rcOK then return (rc, h)
+  let hdr := ((h.hdr.setW F_nextSameHash (d.w F_nextSameHash)).setW F_parent (d.w F_parent)).setW F_access (d.w F_access)
+  let hdr := (hdr.setByte O_nameLen d.nameLen).setBytes O_name (d.bytes O_name 31)
+  let hdr := (hdr.setByte O_commLen d.commLen).setBytes O_comment (d.bytes O_comment 80)
+  let h := { h with hdr := hdr }
   let hdr := stampDates h.hdr (← now)
   let (rc, hdr) ← writeFileHdrBlock h.vol (hdr.w F_headerKey) hdr
   let h := { h with hdr := hdr }
@@ -234,14 +245,17 @@ def fileCreateNextBlock (h : FileH) : Prog (RC × FileH) := do
           let extIdx := (h.nDataBlock - 1 - 72) / 72
           let used := (h.nDataBlock - 72) - extIdx * 72
           let valid : Bool := match h.curExt with
-            | some ce => decide (h.posInExtBlk = used) && decide (ce.w F_highSeq = used)
+            | some ce => decide (h.posInExtBlk = used) && decide (ce.w F_highSeq = used) && decide (ce.w F_extension = 0)
             | none => false
           if valid then return (rcOK, h)
+          let hadExt := h.curExt.isSome
           let (rc, last) ← fileReadExtBlockN h extIdx
+          if rc ≠ rcOK then
+            let h := if hadExt then (match last with | some b => { h with curExt := some b } | none => h) else h
+            return (rc, h)
           let h := match last with
             | some b => { h with curExt := some b }
             | none => if h.curExt.isNone then { h with curExt := some zeroBlk } else h
-          if rc ≠ rcOK then return (rc, h)
           return (rcOK, { h with posInExtBlk := used })
         else return (rcOK, h) : Prog (RC × FileH))
       if rc ≠ rcOK then return (rc, h, 0)
